@@ -17,6 +17,7 @@
 package compose
 
 import (
+	"fmt"
 	"reflect"
 
 	"github.com/cloudwego/eino/internal/generic"
@@ -106,7 +107,12 @@ func unpackStreamReader[T any](isr streamReader) (*schema.StreamReader[T], bool)
 	typ := generic.TypeOf[T]()
 	if typ.Kind() == reflect.Interface {
 		return schema.StreamReaderWithConvert(isr.toAnyStreamReader(), func(t any) (T, error) {
-			return t.(T), nil
+			// nil is a valid value of every interface type, but the plain assertion never holds for it
+			v, ok := assertType[T](t)
+			if !ok {
+				return v, fmt.Errorf("unexpected stream chunk type, expected: %s, actual: %T", typ.String(), t)
+			}
+			return v, nil
 		}), true
 	}
 
